@@ -4,7 +4,7 @@ PROPS[pid]["rules"] = [(rule id, floor of decided instances, selector over insta
 Floors are the numbers counted on the tree the rules were written against: a rule that suddenly
 matches fewer sites is a broken check (exit 2), never a silent pass.
 """
-from . import lt, td, pm, hs, ws, tf, ec, se, bb, lc, cm, vt, wf, dp, dt, he, gl, ts, ee, sl, wp, fs, ic, nb, im, rn, mp, sp, ms, cp, sh, st, rh, vo, wi, law, cn, pr, dtr, sa, vx
+from . import lt, td, pm, hs, ws, tf, ec, se, bb, lc, cm, vt, bt, wf, dp, dt, he, gl, ts, ee, sl, wp, fs, ic, nb, im, rn, mp, sp, ms, cp, sh, st, rh, vo, wi, law, cn, pr, dtr, sa, vx
 
 
 def has(*subs):
@@ -68,6 +68,7 @@ RULES = {
     "LC": {"run": lc.run},
     "CM": {"run": cm.run},
     "VT": {"run": vt.run},
+    "BT": {"run": bt.run},
 }
 
 BDD_T = ("BddNode", "BddPtr")
@@ -100,7 +101,8 @@ PROPS = {
                   ("IM", 14, has("IM2", "IM3")), ("HE", 4, has("BinarySDD:scratch", "SddOr:scratch", "BinarySDD:fields", "SddOr:fields")),
                   ("ST", 2, None), ("SH", 1, has("SddPtr> for T>::condition")), ("SA", 12, None), ("VX", 9, None),
                   ("VO", 1, vo_sel("::sdd::", only_label_order=True)),
-                  ("GL", 7, has("GL1", "GL2", "SddPtr> for T>::ite:GL4", "SddPtr> for T>::and:GL4", "AllIteTable:GL8"))],
+                  ("GL", 7, has("GL1", "GL2", "SddPtr> for T>::ite:GL4", "SddPtr> for T>::and:GL4", "AllIteTable:GL8")),
+                  ("BT", 8, None)],
         "explanation": "Complement coherence of every place the SDD code touches subs/children of a possibly complemented node "
                        "(and_sub_desc, and_prime_desc, and_cartesian, condition, SddPtr::{low,high,neg,is_neg}): operands of "
                        "and/ite/..., elements of result nodes and traversal recursion denote the same thing for a regular and "
@@ -249,7 +251,7 @@ PROPS = {
     "C14": {
         "level": "other",
         "rules": [("IC", 13, hasnot("repr::cnf::Cnf::from_dimacs")), ("VO", 15, vo_sel("var_order", "vtree", "dtree", "force_order")), ("DTR", 5, None), ("VX", 9, None),
-                  ("LT", 2, has("VarOrder", "VTreeManager")), ("VT", 4, None)],
+                  ("LT", 2, has("VarOrder", "VTreeManager")), ("VT", 4, None), ("BT", 8, None)],
         "explanation": "Dimension analysis (Index / Count / OneBased): every function called num_vars returns a count, every "
                        "num_vars field is initialised with a count, label-indexed table sizes are counts (IC). Not decided: "
                        "permutation-ness of heuristic orders, dtree cutsets, LCA / in-order index arithmetic. Added: FORCE re-positions every variable in every round (no element-dropping adaptor in the pipeline: VO force_order); var_to_pos and vtree_index keep their label indexing (LT).",
